@@ -31,7 +31,7 @@ ASSUMPTIONS = [
     "watchdog aborts (a task blocked on a real lock held by a parked thread) are inconclusive, never violations",
     "context_behavior and template_cache_size are process-wide settings, fixed per case",
 ]
-BOUNDS = {"quick": {"hyp": 480, "single_pairs": 3, "double_pairs": 2}, "thorough": {"hyp": 40000, "single_pairs": 12, "double_pairs": 4}}
+BOUNDS = {"quick": {"hyp": 480, "single_pairs": 7, "double_pairs": 2}, "thorough": {"hyp": 40000, "single_pairs": 16, "double_pairs": 4}}
 CFG = {"provide": True, "inject": True, "errors": False, "isfilled": False, "max_nodes": 3, "max_comps": 2, "max_depth": 2, "provide_weight": 3, "inject_pct": 70, "ticks": True, "hooks": False}
 
 SRCS = ["A{{ v }}", "B{% if v %}{{ v }}{% endif %}", "C{{ v|upper }}", "D{% for i in v %}{{ i }}{% endfor %}", "E"]
@@ -116,6 +116,39 @@ def build_tasks(case):
             def run(cls=cls):
                 m = cls.media
                 return [list(m._js), sorted((k, tuple(v)) for k, v in m._css.items()), cls.js, cls().media._js == m._js]
+
+            tasks.append(run)
+        elif kind == "filecomp":
+            # a component whose template / js / css come from files; the SAME class is used by every filecomp task
+            # of the case (first resolution of a shared class from several threads)
+            name = "fc_shared"
+            try:
+                cls = registry.get(name)
+            except Exception:
+                env.write_file("fc_shared/fc.html", "<div>{{ v }}-file</div>", kind="components")
+                env.write_file("fc_shared/fc.js", "console.log('fc')", kind="components")
+                env.write_file("fc_shared/fc.css", ".fc{}", kind="components")
+
+                class FC(Component):
+                    template_file = "fc_shared/fc.html"
+                    js_file = "fc_shared/fc.js"
+                    css_file = "fc_shared/fc.css"
+
+                    def get_context_data(self, v=None):
+                        return {"v": v}
+
+                FC.__module__ = "vfgen.shared"
+                registry.register(name, FC)
+                cls = FC
+
+            def run(i=i, how=t.get("how", 0), cls=cls):
+                if how == 0:
+                    out = Template("{% component 'fc_shared' v='x' / %}").render(Context({}))
+                elif how == 1:
+                    out = cls.render(kwargs={"v": "x"}, render_dependencies=False)
+                else:
+                    return [cls.js, cls.css, cls.template is not None, list(cls.media._js)]
+                return normalize_ids(pg.normalize_real(out))
 
             tasks.append(run)
         elif kind == "parsetag":
@@ -306,8 +339,10 @@ def task(draw):
     if r < 6:
         return {"t": "fail", "program": draw(pgstrat.programs(CFG)), "at": draw(st.integers(1, 4))}
     if r < 8:
-        return {"t": "compile", "srcs": draw(st.lists(st.integers(0, len(SRCS) - 1), min_size=2, max_size=5))}
+        return {"t": "compile", "srcs": draw(st.lists(st.integers(0, draw(st.integers(1, len(SRCS) - 1))), min_size=2, max_size=6))}
     if r < 9:
+        if draw(st.booleans()):
+            return {"t": "filecomp", "how": draw(st.integers(0, 2))}
         return {"t": "media", "shape": draw(st.integers(0, 2))}
     return {"t": "parsetag", "n": draw(st.integers(1, 2))}
 
@@ -346,6 +381,10 @@ DOUBLE_PAIRS = [
     {"tasks": [{"t": "render", "program": _PROV2}, {"t": "render", "program": _PROV}], "mode": "django", "cache_size": 2, "focus": ["provide.py", "component.py"]},
 ]
 FIXED_PAIRS = [
+    {"tasks": [{"t": "filecomp", "how": 0}, {"t": "filecomp", "how": 1}], "mode": "django", "cache_size": 2},
+    {"tasks": [{"t": "compile", "srcs": [0, 0, 0, 0]}, {"t": "compile", "srcs": [1, 2, 1, 3]}], "mode": "django", "cache_size": 1},
+    {"tasks": [{"t": "compile", "srcs": [0, 1, 0, 1, 0]}, {"t": "compile", "srcs": [2, 3, 2]}], "mode": "django", "cache_size": 2},
+    {"tasks": [{"t": "filecomp", "how": 2}, {"t": "filecomp", "how": 0}], "mode": "isolated", "cache_size": 2},
     {"tasks": [{"t": "render", "program": _PROV}, {"t": "render", "program": _PROV}], "mode": "django", "cache_size": 2},
     {"tasks": [{"t": "render", "program": _PROV}, {"t": "fail", "program": _PROV, "at": 2}], "mode": "isolated", "cache_size": 2},
     {"tasks": [{"t": "compile", "srcs": [0, 1, 2, 0]}, {"t": "compile", "srcs": [2, 0, 3, 1]}], "mode": "django", "cache_size": 1},
